@@ -5,24 +5,34 @@ import vlib
 META = dict(
     property_id='C07',
     design_ref='DESIGN.md section 4, C07',
-    technique='Coq proof (mirror-consistency invariant + refinement of a line-by-line model of mem_cache to a map specification) '
-              '+ extracted-model correspondence on operation sequences + spec-interpreter oracle on the real caches',
-    level_text=('Theorems in coq/C07/Props.v over an executable model of mem_cache (src/cache_storage.cpp: delete_node, fetch, store, '
-                'add_trigger, rise, remove, clear, check_limits with its four indexes and counters), for ALL finite sequences of '
-                'store/fetch/rise/remove/clear with arbitrary clock schedules, limits and allocator behaviour: the four indexes stay '
-                'mirror-consistent (Inv); every entry the cache holds is exactly the latest store under its key and has not been removed, '
-                'cleared, or had any attached trigger (own key included) raised since, and a fetch past the deadline misses (so a hit is never '
-                'stale, with or without a limit); with no limit and no allocation failure the cache content EQUALS the specification map '
-                '(a live entry is always found); the model outputs equal those of an abstract LRU specification. cache_interface trigger '
-                'recording (nested recorders, inherited triggers) is modelled and proved to attach every recorded trigger. '
-                'The model is tied to the current source by running the extracted model and the real thread_shared and process_shared caches '
-                '(interposed time()) on the same operation sequences: exhaustive short sequences over a tiny alphabet, long random ones, '
-                'limits 0,1,2,small,large.'),
-    level_note=('Trusted: Coq kernel; ExtrOcamlBasic extraction; the hand-written model of mem_cache (no leaf function of this code is in the '
-                'loop-free integer fragment cxx2v translates, so the tie is correspondence only); hash_map is modelled as a finite map (its '
-                'bucket/rehash machinery is exercised through the cache by >2*limit inserts, not proved); std::multimap/std::list/std::set '
-                'semantics; locks are not modelled (single-threaded semantics; concurrency is C09). Allocation failures of the shared-memory '
-                'variant are oracle arguments in the model (covered by the soundness theorems, not by correspondence).'),
+    technique='Coq proof (mirror-consistency invariant of a line-by-line model of mem_cache, refinement to an abstract LRU cache and to a '
+              'map specification, model of cache_interface/triggers_recorder) + extracted-model correspondence on operation sequences '
+              'against the real thread_shared and process_shared caches and the real cache_interface (frames, recorders, fetch_page/store_page) '
+              '+ specification-interpreter oracle on the implementation answers',
+    level_text=('Theorems in coq/C07/Props.v over an executable model (coq/C07/Defs.v) of mem_cache (src/cache_storage.cpp: delete_node, fetch, '
+                'store, add_trigger, rise, remove, clear, check_limits with its four indexes and counters) and (coq/C07/Ifc.v) of cache_interface '
+                'and triggers_recorder (src/cache_interface.cpp: fetch, store, add_trigger, store_page, fetch_page, reset, recorder attach/detach), '
+                'for ALL finite operation sequences, clock schedules, limits, memory-pressure patterns and allocator faults: '
+                '(1) the four indexes stay mirror-consistent (Inv) and the model answers equal those of an abstract LRU cache; '
+                '(2) refines_spec: with no limit and no allocation failure every fetch answer and the stats after every operation equal those of '
+                'the specification map key -> latest store (rise t deletes every binding whose trigger list, own key included, contains t; hit iff '
+                'bound and now <= deadline), so a live entry is always found; (3) refines_spec_limited: for every limit and every fault except a '
+                'store whose value copy fails, every fetch misses or returns exactly the specification answer and every counted entry is a binding '
+                'of the specification map (nothing stale is ever returned or kept); the excluded fault is proved to be a real counterexample '
+                '(known finding stale-after-failed-store, replayed on the implementation); (4) the clauses of the property text over explicit '
+                'histories: hit = value, triggers, deadline of the latest store; miss after remove / clear / rise of any attached trigger / '
+                'deadline passed / never stored; (5) every interface operation is one back-end operation, a recorder returns exactly the names '
+                'added between attach and detach under any nesting, the page set holds everything added or inherited since the last reset, a '
+                'stored page or frame misses after raising any of its recorded triggers. '
+                'The model is tied to the current source by running the extracted model and the real code on the same operation sequences: '
+                'exhaustive short sequences over a tiny alphabet, long random ones, limits 0,1,2,small,large, both back ends, and sequences '
+                'through cache_interface objects of a service and of request contexts.'),
+    level_note=('Trusted: Coq kernel; ExtrOcamlBasic extraction; the hand-written models (no function of this code is in the loop-free integer '
+                'fragment cxx2v translates - containers, strings, time() - so the tie is correspondence only, including the constant infty of '
+                'deadtime() which is pinned by a boundary case); hash_map is modelled as a finite map (its bucket/rehash machinery is exercised '
+                'through the cache by >2*limit inserts, not proved); std::multimap/std::list/std::set semantics; locks are not modelled '
+                '(single-threaded semantics; concurrency is C09). Allocation failures of the shared-memory variant are oracle arguments of the '
+                'model (covered by the soundness theorems; correspondence covers only the value-larger-than-the-segment failure).'),
 )
 
 GEN = {}
@@ -73,6 +83,19 @@ def value_bytes(tok):
         b = b'' if pre == '-' else bytes.fromhex(pre)
         return b + b'v' * (int(ln) - len(b))
     return b'' if tok == '-' else bytes.fromhex(tok)
+
+
+def value_len(tok):
+    if tok.startswith('#'):
+        ln, pre = tok[1:].split('x')
+        return max(int(ln), 0 if pre == '-' else len(pre) // 2)
+    return 0 if tok == '-' else len(tok) // 2
+
+
+def oversized(backend, vtok):
+    """input class of the known finding: process_shared back end and a value larger than the whole shared segment
+    (copying it into the segment throws std::bad_alloc in the first try block of mem_cache::store)"""
+    return backend.startswith('p') and value_len(vtok) > int(backend[1:]) * 1024
 
 
 def valtok_of(tok):
@@ -206,15 +229,26 @@ def oracle_sound(case, out, pressure=False):
     sp = Spec(0, evict=False)
     sp.now = t0
     auto_gens = {}
+    stale = {}           # key -> superseded entry that a store which could not be allocated left behind
     for i, (o, a) in enumerate(zip(ops, toks)):
         f = o.split(':')
         tag = f[0]
         af = a.split(':')
+        continue_store = False
         if tag == 'S':
             ts = [] if f[3] == '.' else f[3].split('+')
             g = None if f[5] == '-' else int(f[5])
-            sp.store(f[1], valtok_of(f[2]), ts, int(f[4]), g)
-            if pressure and g is None:
+            if oversized(backend, f[2]):
+                # this store cannot be carried out.  Property: the key must not be served from older data afterwards.
+                # (no generation number is consumed: nothing reaches the cache)
+                if f[1] in sp.m:
+                    stale[f[1]] = sp.m[f[1]]
+                    sp.remove(f[1])
+            else:
+                stale.pop(f[1], None)
+                continue_store = True
+                sp.store(f[1], valtok_of(f[2]), ts, int(f[4]), g)
+            if continue_store and pressure and g is None:
                 e = sp.m[f[1]]
                 sp.m[f[1]] = (e[0], e[1], e[2], None)
         elif tag == 'F':
@@ -224,6 +258,11 @@ def oracle_sound(case, out, pressure=False):
                 if len(af) != 6:
                     return ('bad-output', 'malformed hit token ' + a[:200])
                 where = 'op %d (%s) answered %s' % (i, o[:80], a[:160])
+                se = stale.get(f[1])
+                if e is None and se is not None and se[2] >= sp.now and af[1] == se[0] and af[2] == ('+'.join(se[1]) if se[1] else '.') \
+                        and int(af[3]) == se[2]:
+                    return ('stale-after-failed-store', 'the latest store under this key could not be allocated (value larger than the '
+                            'shared segment) and was dropped silently, but the superseded entry is still served: ' + where)
                 if e is None:
                     return ('hit-after-invalidation', 'fetch hit for a key that was never stored, or was removed / cleared / had a trigger '
                             'raised since its last store: ' + where)
@@ -247,10 +286,14 @@ def oracle_sound(case, out, pressure=False):
                 return ('bad-output', 'unexpected token %s for fetch' % a[:100])
         elif tag == 'R':
             sp.rise(f[1])
+            for k in [k for k, se in stale.items() if f[1] in se[1]]:
+                del stale[k]
         elif tag == 'D':
             sp.remove(f[1])
+            stale.pop(f[1], None)
         elif tag == 'C':
             sp.clear()
+            stale.clear()
         elif tag == 'T':
             sp.now = int(f[1])
         st = af[-1]
@@ -258,7 +301,14 @@ def oracle_sound(case, out, pressure=False):
             ks, tsn = [int(x) for x in st.split('/')]
         except ValueError:
             return ('bad-output', 'no stats in token ' + a[:100])
-        if exact:
+        if stale:
+            # entries left behind by the known finding may or may not be counted; only the bounds are checked
+            smax = len(sp.m) + len(stale)
+            tmax = sp.trig_count() + sum(len(se[1]) for se in stale.values())
+            if ks > smax or tsn > tmax or (exact and (ks < len(sp.m) or tsn < sp.trig_count())):
+                return ('stats-wrong', 'stats after op %d (%s) are %s, history implies between %d/%d and %d/%d'
+                        % (i, o[:80], st, len(sp.m), sp.trig_count(), smax, tmax))
+        elif exact:
             if ks != len(sp.m) or tsn != sp.trig_count():
                 return ('stats-wrong', 'stats after op %d (%s) are %s, history implies %d/%d' % (i, o[:80], st, len(sp.m), sp.trig_count()))
         else:
@@ -270,7 +320,9 @@ def oracle_sound(case, out, pressure=False):
 
 
 def oracle(case, out):
-    if case.startswith('ifc '):
+    if out == '<missing>':
+        return None         # the worker stopped at an earlier case (which carries the crash marker); no verdict for this one
+    if case.startswith('ifc ') or case.startswith('ifp '):
         return oracle_ifc(case, out)
     return oracle_sound(case, out)
 
@@ -279,6 +331,9 @@ def oracle(case, out):
 # cache_interface with recorders: spec = page trigger set + stack of recorder sets over the map spec
 # --------------------------------------------------------------------------------------------
 def oracle_ifc(case, out):
+    """the property through cppcms::cache_interface, on the implementation's answers alone.
+    Specification state: the map spec + the page trigger set + the stack of attached recorder sets; per request
+    (mode ifp) whether the response is finished, whether copy_to_cache is on, which page-key prefix is in use."""
     mode, backend, limit, t0, ops = parse_case(case)
     toks = out.split(' ') if out else []
     if out.startswith('<') or 'exception' in out:
@@ -289,14 +344,20 @@ def oracle_ifc(case, out):
     sp.now = t0
     page = set()
     recs = []
+    req = dict(gz=False, finished=False, copying=False, pgz=False)
 
     def add(t):
         page.add(t)
         for r in recs:
             r.add(t)
+
+    def pkey(gz, k):
+        return ('5f5a3a' if gz else '5f553a') + ('' if k == '-' else k)
     for i, (o, a) in enumerate(zip(ops, toks)):
         f = o.split(':')
         tag = f[0]
+        if ':' not in a:
+            return ('bad-output', 'token without stats: ' + a[:100])
         body, st = a.rsplit(':', 1)
         where = 'op %d (%s) answered %s' % (i, o[:80], a[:160])
         if tag == 'S':
@@ -308,27 +369,49 @@ def oracle_ifc(case, out):
                 add(f[1])
             sp.store(f[1], valtok_of(f[2]), ts, INFTY if secs < 0 else sp.now + secs, None)
         elif tag == 'P':
-            secs = int(f[2])
-            add(f[1])
-            sp.store('5f553a' + ('' if f[1] == '-' else f[1]), valtok_of('70616765'), sorted(page), INFTY if secs < 0 else sp.now + secs, None)
-        elif tag == 'F' or tag == 'G':
-            key = f[1] if tag == 'F' else '5f553a' + ('' if f[1] == '-' else f[1])
-            e = sp.m.get(key)
-            live = e is not None and e[2] >= sp.now
-            if body.startswith('h'):
-                if e is None:
-                    return ('hit-after-invalidation', 'interface fetch hit for a key without a valid store (a trigger recorded while the '
-                            'entry was built was raised, or it was removed/cleared): ' + where)
-                if e[2] < sp.now:
-                    return ('hit-after-deadline', 'interface fetch hit after the deadline: ' + where)
-                if body != 'h:' + e[0]:
-                    return ('hit-wrong-value', 'interface fetch returned a value that is not the latest store: ' + where)
-                if tag == 'F' and f[2] != '1':
-                    for t in e[1]:
-                        add(t)
+            if req['finished']:
+                if body != 'skip':
+                    return ('bad-output', where)
             else:
-                if live and limit == 0:
-                    return ('miss-of-live-entry', 'interface fetch missed a live entry with no limit: ' + where)
+                secs = int(f[3])
+                add(f[1])
+                val = None if req['pgz'] else (valtok_of(f[2]) if req['copying'] else '-')
+                sp.store(pkey(req['pgz'], f[1]), val, sorted(page), INFTY if secs < 0 else sp.now + secs, None)
+                req['finished'] = True
+        elif tag == 'F' or tag == 'G':
+            if tag == 'G' and req['finished']:
+                if body != 'skip':
+                    return ('bad-output', where)
+            else:
+                if tag == 'G':
+                    req['pgz'] = req['gz']
+                key = f[1] if tag == 'F' else pkey(req['gz'], f[1])
+                what = 'interface fetch' if tag == 'F' else 'fetch_page'
+                e = sp.m.get(key)
+                live = e is not None and e[2] >= sp.now
+                if body.startswith('h'):
+                    if e is None:
+                        return ('hit-after-invalidation', what + ' hit for a key without a valid store (a trigger recorded while the '
+                                'entry was built was raised, or it was removed/cleared): ' + where)
+                    if e[2] < sp.now:
+                        return ('hit-after-deadline', what + ' hit after the deadline: ' + where)
+                    if tag == 'G' and req['gz']:
+                        if body != 'h:Z':
+                            return ('bad-output', where)
+                    elif e[0] is not None and body != 'h:' + e[0]:
+                        return ('hit-wrong-value', what + ' returned a value that is not the latest store: ' + where)
+                    if tag == 'F' and f[2] != '1':
+                        for t in e[1]:
+                            add(t)
+                    if tag == 'G':
+                        req['finished'] = True
+                elif body == 'm':
+                    if live and limit == 0:
+                        return ('miss-of-live-entry', what + ' missed a live entry with no limit: ' + where)
+                    if tag == 'G':
+                        req['copying'] = True
+                else:
+                    return ('bad-output', where)
         elif tag == 'A':
             add(f[1])
         elif tag == 'R':
@@ -339,6 +422,10 @@ def oracle_ifc(case, out):
             page.clear()
         elif tag == 'T':
             sp.now = int(f[1])
+        elif tag == 'N':
+            page.clear()
+            recs = []
+            req = dict(gz=(f[1] == '1'), finished=False, copying=False, pgz=False)
         elif tag == '(':
             recs.append(set())
         elif tag == ')':
@@ -350,10 +437,16 @@ def oracle_ifc(case, out):
                             % (body, exp, where))
             elif body != ')none':
                 return ('bad-output', where)
-        if limit == 0:
+        try:
             ks, tsn = [int(x) for x in st.split('/')]
+        except ValueError:
+            return ('bad-output', 'no stats in token ' + a[:100])
+        if limit == 0:
             if ks != len(sp.m) or tsn != sp.trig_count():
                 return ('stats-wrong', 'stats after op %d (%s) are %s, history implies %d/%d' % (i, o[:80], st, len(sp.m), sp.trig_count()))
+        elif ks > len(sp.m) or tsn > sp.trig_count() or ks > limit:
+            return ('stats-exceed-history', 'stats after op %d (%s) are %s; at most %d/%d entries can be valid, limit %d'
+                    % (i, o[:80], st, len(sp.m), sp.trig_count(), limit))
     return None
 
 
@@ -361,7 +454,6 @@ def oracle_ifc(case, out):
 # generators
 # --------------------------------------------------------------------------------------------
 KA, KB, KX = b'a', b'b', b'x'
-PAGE_OPS = False
 
 
 def small_alphabet(full):
@@ -479,6 +571,14 @@ def aimed_cases(backends, limits):
         for lim in limits:
             for s in seqs:
                 cases.append('seq %s %d %d %s' % (be, lim, T0, ' '.join(s)))
+            if be.startswith('p'):
+                # a value that cannot be copied into the shared segment (std::bad_alloc in the first try block of store):
+                # the key must not be served from the superseded entry afterwards  [known finding stale-after-failed-store]
+                big = '#%dx32' % (int(be[1:]) * 1024 + 88000)
+                cases.append('seq %s %d %d %s' % (be, lim, T0, ' '.join(
+                    [S(a, b'1', [x], T0 + 5), F(a), S(a, big, [], T0 + 5), F(a), S(b, b'2', [x], T0 + 5), F(b), R(x), F(a), F(b)])))
+                cases.append('seq %s %d %d %s' % (be, lim, T0, ' '.join(
+                    [S(a, big, [x], T0 + 5), F(a), S(a, b'1', [], T0 + 5), F(a), S(a, big, [], T0 + 5), D(a), F(a)])))
             # > 2*limit inserts (forces hash_map rehash while trigger lists hold iterators), then rise of a shared trigger
             n = max(8, 3 * lim if lim < 200 else 8)
             seq = []
@@ -493,50 +593,66 @@ def aimed_cases(backends, limits):
 
 
 def ifc_cases(rng, n, backends, limits):
+    """sequences through cppcms::cache_interface.  mode ifc: a context-free cache_interface(service) (frames, add_trigger,
+    nested recorders, reset); mode ifp: the cache_interface of request contexts, plus N (next request, gzip or not),
+    G (fetch_page) and P (write + store_page)."""
     cases = []
     keys = [b'f%d' % i for i in range(4)]
     trigs = [b't%d' % i for i in range(4)] + keys[:2]
-    fixed = [
-        # the repo's own nesting, then: page inherits the triggers of the frame it fetched; rising one kills the page
-        ['(', S(b'foo', b'bar', [b'k1'], 10) + '', ')'],
-    ]
+    pages = [b'p0', b'p1', b'']
+    Sf = lambda k, v, ts, secs, notr: 'S:%s:%s:%s:%d:%d' % (hx(k), hx(v), trig_tok(ts), secs, notr)
     for be in backends:
         for lim in limits:
-            # frame with trigger t0, page fetches frame (inherits f0,t0), page stored with collected set, rise t0 -> page gone
-            if PAGE_OPS:
-                seq = ['S:%s:%s:%s:10:0' % (hx(b'f0'), hx(b'frame'), trig_tok([b't0'])), 'X', 'F:%s:0' % hx(b'f0'), 'A:' + hx(b'extra'),
-                       'P:%s:10' % hx(b'page'), 'G:' + hx(b'page'), 'R:' + hx(b't0'), 'G:' + hx(b'page'), 'F:%s:0' % hx(b'f0')]
-                cases.append('ifc %s %d %d %s' % (be, lim, T0, ' '.join(seq)))
-            seq = ['(', 'S:%s:%s:%s:10:0' % (hx(b'f0'), hx(b'x'), trig_tok([b't0'])), '(', 'F:%s:0' % hx(b'f0'), 'A:' + hx(b't1'), ')',
-                   'S:%s:%s:%s:-1:1' % (hx(b'f1'), hx(b'y'), trig_tok([b't2'])), 'F:%s:1' % hx(b'f1'), ')', 'R:' + hx(b't2'), 'F:%s:0' % hx(b'f1')]
+            # the repo's own nesting plus inheritance: the inner recorder sees what is added while it is attached, the outer one everything
+            seq = ['(', Sf(b'f0', b'x', [b't0'], 10, 0), '(', 'F:%s:0' % hx(b'f0'), 'A:' + hx(b't1'), ')',
+                   Sf(b'f1', b'y', [b't2'], -1, 1), 'F:%s:1' % hx(b'f1'), ')', 'R:' + hx(b't2'), 'F:%s:0' % hx(b'f1')]
             cases.append('ifc %s %d %d %s' % (be, lim, T0, ' '.join(seq)))
+            # a page that fetched a cached frame inherits the frame's triggers: raising one kills page and frame; the gzip variant of
+            # the page (key prefix _Z:) built in another request without the frame survives; reset() drops what was collected
+            seq = [Sf(b'f0', b'frame', [b't0'], 10, 1), '(', 'F:%s:0' % hx(b'f0'), '(', 'A:' + hx(b'u1'), ')', ')', 'G:' + hx(b'p0'),
+                   'P:%s:%s:10' % (hx(b'p0'), '#50x41'), 'N:0', 'G:' + hx(b'p0'), 'N:1', 'G:' + hx(b'p0'), 'P:%s:%s:10' % (hx(b'p0'), hx(b'ZZ')),
+                   'N:1', 'G:' + hx(b'p0'), 'R:' + hx(b't0'), 'N:0', 'G:' + hx(b'p0'), 'F:%s:0' % hx(b'f0'), 'N:1', 'G:' + hx(b'p0'),
+                   'N:0', 'A:' + hx(b't3'), 'X', 'G:' + hx(b'p1'), 'P:%s:%s:-1' % (hx(b'p1'), hx(b'q')), 'R:' + hx(b't3'), 'N:0', 'G:' + hx(b'p1'),
+                   'R:' + hx(b'p1'), 'N:0', 'G:' + hx(b'p1')]
+            cases.append('ifp %s %d %d %s' % (be, lim, T0, ' '.join(seq)))
+            # timeout < 0 means the constant infty = max time_t - one day: alive at that very second, expired one second later
+            seq = [Sf(b'f0', b'x', [], -1, 0), Sf(b'f1', b'y', [], 0, 0), 'T:%d' % (T0 + 1), 'F:%s:0' % hx(b'f0'), 'F:%s:0' % hx(b'f1'),
+                   'T:%d' % INFTY, 'F:%s:0' % hx(b'f0'), 'T:%d' % (INFTY + 1), 'F:%s:0' % hx(b'f0')]
+            cases.append('ifc %s %d %d %s' % (be, lim, T0, ' '.join(seq)))
+            # store_page without a preceding fetch_page miss stores empty copied_data(); expiry of a page
+            seq = ['P:%s:%s:5' % (hx(b'p0'), hx(b'AA')), 'G:' + hx(b'p0'), 'N:0', 'G:' + hx(b'p0'), 'P:%s:%s:5' % (hx(b'p1'), hx(b'B')),
+                   'N:0', 'G:' + hx(b'p1'), 'P:%s:%s:5' % (hx(b'p1'), hx(b'B')), 'T:%d' % (T0 + 5), 'N:0', 'G:' + hx(b'p1'),
+                   'T:%d' % (T0 + 6), 'N:0', 'G:' + hx(b'p1'), 'G:' + hx(b'p0')]
+            cases.append('ifp %s %d %d %s' % (be, lim, T0, ' '.join(seq)))
     for _ in range(n):
         be = rng.choice(backends)
         lim = rng.choice(limits)
+        paged = rng.random() < 0.6
         now = T0
         depth = 0
         seq = []
         for _ in range(rng.randrange(4, 40)):
             r = rng.random()
-            if r < 0.25:
+            if r < 0.22:
                 nt = rng.choice([0, 1, 1, 2])
-                seq.append('S:%s:%s:%s:%d:%d' % (hx(rng.choice(keys)), hx(bytes([rng.randrange(97, 123)])),
-                                                  trig_tok(set(rng.choice(trigs) for _ in range(nt))),
-                                                  rng.choice([-1, 0, 1, 2, 10]), rng.random() < 0.2))
-            elif r < 0.45:
+                seq.append(Sf(rng.choice(keys), bytes([rng.randrange(97, 123)]), set(rng.choice(trigs) for _ in range(nt)),
+                              rng.choice([-1, 0, 1, 2, 10]), rng.random() < 0.2))
+            elif r < 0.40:
                 seq.append('F:%s:%d' % (hx(rng.choice(keys)), rng.random() < 0.2))
-            elif r < 0.55:
+            elif r < 0.48:
                 seq.append('A:' + hx(rng.choice(trigs)))
-            elif r < 0.63:
-                seq.append('R:' + hx(rng.choice(trigs)))
-            elif r < 0.73 and depth < 4:
+            elif r < 0.56:
+                seq.append('R:' + hx(rng.choice(trigs + pages[:2])))
+            elif r < 0.64 and depth < 4:
                 seq.append('('); depth += 1
-            elif r < 0.83 and depth > 0:
+            elif r < 0.72 and depth > 0:
                 seq.append(')'); depth -= 1
-            elif r < 0.88 and PAGE_OPS:
-                seq.append('P:%s:%d' % (hx(rng.choice([b'p0', b'p1'])), rng.choice([-1, 1, 5])))
-            elif r < 0.93 and PAGE_OPS:
-                seq.append('G:' + hx(rng.choice([b'p0', b'p1'])))
+            elif r < 0.80 and paged:
+                seq.append('G:' + hx(rng.choice(pages)))
+            elif r < 0.87 and paged:
+                seq.append('P:%s:%s:%d' % (hx(rng.choice(pages)), hx(bytes([rng.randrange(65, 91)]) * rng.choice([1, 2, 40])), rng.choice([-1, 0, 1, 5])))
+            elif r < 0.93 and paged:
+                seq.append('N:%d' % (rng.random() < 0.3)); depth = 0
             elif r < 0.95:
                 seq.append('X')
             elif r < 0.96:
@@ -546,7 +662,7 @@ def ifc_cases(rng, n, backends, limits):
                 seq.append(T(now))
         while depth > 0:
             seq.append(')'); depth -= 1
-        cases.append('ifc %s %d %d %s' % (be, lim, T0, ' '.join(seq)))
+        cases.append('%s %s %d %d %s' % ('ifp' if paged else 'ifc', be, lim, T0, ' '.join(seq)))
     return cases
 
 
@@ -605,15 +721,23 @@ def run(ctx):
     res = vlib.coq_props('C07')
     ctx.proof(res)
     ctx.coverage['trusted_base'] = [
-        'Coq 8.16.1 kernel (no vm_compute in the property theorems; vm_compute only in the non-vacuity Examples)',
-        'hand-written model coq/C07/Defs.v of mem_cache in src/cache_storage.cpp (no cxx2v-translatable leaf functions in this code)',
+        'Coq 8.16.1 kernel (vm_compute only in the non-vacuity Examples and in the _refuted witness)',
+        'hand-written models coq/C07/Defs.v (mem_cache, src/cache_storage.cpp) and coq/C07/Ifc.v (cache_interface, triggers_recorder, '
+        'src/cache_interface.cpp); no cxx2v-translatable leaf functions in this code',
+        'the map specification of coq/C07/Spec.v (m_step, m_fetch) and coq/C07/MapSpec.v is what the property text means',
         'extraction: ExtrOcamlBasic only, OCaml 4.13.1',
-        'harness/C07_cache.cpp (interposed time(), fork per process_shared case), ocaml/C07_driver.ml, checks/C07.py (generators, spec interpreter oracle)',
+        'harness/C07_cache.cpp + harness/C07_dummy_api.h (interposed time(), fork per process_shared / interface case, socket-less cgi connection '
+        'for request contexts), ocaml/C07_driver.ml, checks/C07.py (generators, spec interpreter oracle)',
         'hash_map / std::multimap / std::list / std::set behave as finite map / stable sorted multimap / list / set']
     ctx.assumptions = ['single-threaded use (locks not modelled; C09 covers concurrency)',
-                       'for correspondence: no allocation failure and not_enough_memory() false (shared segment >= 512 KiB, values <= 100 bytes)',
-                       'counters do not wrap (uint64 generation, size_t size)',
-                       'time() is the only clock the cache reads (checked by the harness self-test on every run)']
+                       'theorems refines_spec / live_entry_found: limit 0, no allocation failure, not_enough_memory() false (op_no_fault)',
+                       'theorems refines_spec_limited and the miss/hit clauses: no store whose value copy fails (op_no_drop_before); that case is the '
+                       'known finding stale-after-failed-store',
+                       'for correspondence: not_enough_memory() false (shared segment >= 512 KiB, values <= 100 bytes) except the aimed cases '
+                       'with a value larger than the segment',
+                       'counters do not wrap (uint64 generation, size_t size); deadtime(): now + seconds does not overflow time_t',
+                       'time() is the only clock the cache reads (the harness self-test checks on every run that the library calls the interposed time())',
+                       'fetch_page/store_page: the request is a GET with or without Accept-Encoding: gzip, default content type, io_mode normal']
     exe, err = vlib.build_harness('C07_cache', ['C07_cache.cpp'])
     if not exe:
         ctx.broke('harness build failed', err)
@@ -631,7 +755,10 @@ def run(ctx):
                             '{other key, x}, deadlines now-1/now/now+1, rise, remove, clear, clock tick) x limits 0,1,2. Random (seeded): sequences of up to '
                             '200 operations over up to 20 keys and 9 triggers (trigger names overlap key names), limits 0..100000, deadlines around the moving '
                             'clock plus extreme values, explicit generations, values up to 100 bytes. Aimed: the histories named in the property text. '
-                            'Plus sequences through cppcms::cache_interface with nested triggers_recorder objects. Non-trivial = at least one hit and at '
+                            'Mode ifc: sequences through a cppcms::cache_interface(service) - store_frame/fetch_frame with and without notriggers, add_trigger, '
+                            'rise, clear, reset, nested triggers_recorder attach/detach; mode ifp: the same through the cache_interface of request contexts '
+                            '(socket-less connection) plus next-request, fetch_page and store_page with and without gzip; both compared with the extracted '
+                            'interface model and judged by the oracle (recorder sets, inherited triggers, page invalidation). Non-trivial = at least one hit and at '
                             'least one miss of a previously stored key; distinct = distinct case lines.')
     ctx.coverage['exhaustive'] = False
     ctx.coverage['exhaustive_parts'] = ['all op sequences of length 3 (quick) / 4 (thorough) over the 29-op alphabet ending in a fetch x limits {0,1,2}',
@@ -642,4 +769,4 @@ def run(ctx):
     if ctx.replay_cases is None:
         ifcs += ifc_cases(ctx.rng, ctx.scale(600, 6000), ['t', 'p512'], [0, 0, 2, 64])
     if ifcs:
-        vlib.differential(ctx, ifcs, exe, None, oracle, nontrivial, classify, what='correspondence interface model vs cache_interface')
+        vlib.differential(ctx, ifcs, exe, mexe, oracle, nontrivial, classify, what='correspondence interface model vs cache_interface')
